@@ -373,7 +373,7 @@ PROPS = {
     "C11": {
         "technique": "runtime monitoring: generated double arguments (log-uniform, uniform, binade boundaries, switch points, k*pi/2, widened floats, mixed companions) judged "
                      "against a long double reference, disagreements re-checked in __float128",
-        "level_text": "Every value returned by every double elementary function on 5.2e5 (quick) / 3.4e7 (thorough) generated arguments per function per architecture is compared "
+        "level_text": "Every value returned by every double elementary function on 4.2e6 (quick) / 6.7e7 (thorough) generated arguments per function per architecture is compared "
                       "with a long double (64-bit mantissa) reference and, when the error exceeds 0.75 of the bound, with __float128 (libquadmath) before it is reported. Same "
                       "bound / saturation rules as C10 with the double column of the frozen table. Doubles cannot be enumerated: exploration.",
         "level_note": "Trusts glibc long double libm and libquadmath. The generators are derived from the thresholds of the current kernels plus threshold-independent streams.",
